@@ -27,7 +27,7 @@ func init() {
 		ID: "C16",
 		Meta: func(tier string) fw.Meta {
 			return fw.Meta{
-				Flavours: []string{"plain", "race", "cover"},
+				Flavours: []string{"plain", "race", "cover", "386"},
 				Blocks:   16,
 				Procs:    16,
 				Rule: "case = one input byte string. Exhaustive: every string of length <= 7 (<= 9 thorough) over 7 bytes: one representative per tokenizer class (blank, newline, backslash, single quote, double quote) and two 'other' bytes; plus a position sweep (one byte of every value at every offset of otherwise plain text of every length 1..40 and around 64/128; pairs of special bytes at every two offsets), every single byte 0..255 in five contexts (classification of all byte values), inputs of 4090..65537 bytes whose tokens and quoted spans cross buffer boundaries, and random inputs up to 200 bytes over a wider alphabet (tab, CR, VT, FF, NBSP, $, `, #, non-ASCII). " +
